@@ -22,7 +22,7 @@ func init() {
 			"(d) on the non-protecting branch the bytes signed are HashTreeRoot(SigningData{ObjectRoot: root, Domain: domain}) of the helper's own parameters; " +
 			"(e) batch results are parallel to the accounts they were requested for through the split by account kind (index-space analysis, and the result space of every batch method is its accounts parameter); " +
 			"(f) len(accounts) == len(roots) is established before the second is indexed by the first's index. " +
-			"Added with the fourth seeding round: (g) slices the callee co-indexes are handed over cut the same way. Added with the fifth seeding round: (x) the cross-cutting rules inside the signer: a result variable shadowed in a nested scope, then used outside it. Added with the sixth seeding round and the false-alarm regression: (x) no slice parameter is sorted in place in the signer. Added with the seventh seeding round: (k) the groups a batch is split into are signed independently (the second group's test is reached whether or not the first group was empty); (y) C05.k is taken over. Added with the tenth seeding round: (l) nothing is kept between calls: the signer's Service has no field of domain type, and no signing root is taken out of a map. NOT decided: BLS verification, SSZ merkleisation (library), behaviour of Dirk's multi-signer.",
+			"Added with the fourth seeding round: (g) slices the callee co-indexes are handed over cut the same way. Added with the fifth seeding round: (x) the cross-cutting rules inside the signer: a result variable shadowed in a nested scope, then used outside it. Added with the sixth seeding round and the false-alarm regression: (x) no slice parameter is sorted in place in the signer. Added with the seventh seeding round: (k) the groups a batch is split into are signed independently (the second group's test is reached whether or not the first group was empty); (y) C05.k is taken over. Added with the tenth seeding round: (l) nothing is kept between calls: the signer's Service has no field of domain type, and no signing root is taken out of a map. Added with the eleventh seeding round: (m) no map from an account or public key to a position in the request (a request may name an account twice). NOT decided: BLS verification, SSZ merkleisation (library), behaviour of Dirk's multi-signer.",
 		Technique: "table agreement against the specification (field -> spec key in New composed with method -> field), provenance of call arguments and composite-literal fields by parameter name, index-space analysis with verified result summaries, guard/edge-deletion for nil and length tests",
 		Rule:      "obligations per signing method (a,b,c), per signing helper (d,f), per function with indexed accesses and per batch method (e)",
 	})
@@ -482,6 +482,35 @@ func runC06(p *core.Prog, r *core.Report, tier string) {
 	r.Count("C06.k pairs of independently signed groups", nGroups)
 	if nGroups == 0 {
 		r.Hold("C06.k", "no-pairs-of-group-tests", "", "no signing method tests two of its groups one after the other")
+	}
+
+	// ---- (m) a signature finds its place in the answer by position, never by account: a request may name one account
+	// several times (a validator that sits in two sync subcommittees is signed for twice), so a map from the account
+	// to "its" position keeps the last one only and the earlier place stays empty ----
+	nByAcc := 0
+	for _, f := range fns {
+		core.EachInstr(f, func(in ssa.Instruction) {
+			mu, ok := in.(*ssa.MapUpdate)
+			if !ok {
+				return
+			}
+			mt, ok := mu.Map.Type().Underlying().(*types.Map)
+			if !ok {
+				return
+			}
+			if b, ok := mt.Elem().Underlying().(*types.Basic); !ok || b.Info()&types.IsInteger == 0 {
+				return
+			}
+			kt := mt.Key().String()
+			if !strings.HasSuffix(kt, "go-eth2-wallet-types/v2.Account") && !strings.HasSuffix(kt, "phase0.BLSPubKey") {
+				return
+			}
+			nByAcc++
+			r.Violate("C06.m", fmt.Sprintf("%s|position-by-account#%d", core.FnKey(f), nByAcc), p.Pos(mu.Pos()), "a position in the request is remembered under the account ("+kt+"): a request that names the same account twice keeps only the later position, the signature for the earlier one is never put in its place (it goes out as zeros, without an error)")
+		})
+	}
+	if nByAcc == 0 {
+		r.Hold("C06.m", "positions-not-by-account", "", "no map from an account (or its public key) to a position in the signer")
 	}
 }
 
